@@ -232,28 +232,52 @@ func runC27(c *core.Ctx) {
 			return false, false
 		}
 		k, okk := ir.ConstInt(b.Y)
-		if !okk || k != 0 {
+		if !okk {
+			return false, false
+		}
+		// Cmp answers −1, 0 or +1: the test is identified by the set of answers it holds for
+		holds := func(x int64) bool {
+			switch b.Op {
+			case token.GTR:
+				return x > k
+			case token.GEQ:
+				return x >= k
+			case token.LSS:
+				return x < k
+			case token.LEQ:
+				return x <= k
+			case token.EQL:
+				return x == k
+			case token.NEQ:
+				return x != k
+			}
+			return false
+		}
+		onlyWhen := func(want int64) (bool, bool) {
+			all, none := true, true
+			for _, x := range []int64{-1, 0, 1} {
+				if holds(x) != (x == want) {
+					all = false
+				}
+				if holds(x) != (x != want) {
+					none = false
+				}
+			}
+			switch {
+			case all:
+				return true, true // true exactly for the wanted answer
+			case none:
+				return true, false // false exactly for the wanted answer
+			}
 			return false, false
 		}
 		a := cmp.Common().Args
 		cur := func(v ssa.Value) bool { cl, idx := ir.CallOf(v); return cl != nil && idx == 1 && ir.CalleeIs(cl, gch) }
 		switch {
 		case ir.Strip(a[0]) == ir.Strip(sumV) && cur(a[1]):
-			// new.Cmp(current) > 0
-			switch b.Op {
-			case token.GTR:
-				return true, true
-			case token.LEQ:
-				return true, false
-			}
+			return onlyWhen(1) // new.Cmp(current) is +1
 		case cur(a[0]) && ir.Strip(a[1]) == ir.Strip(sumV):
-			// the same test asked the other way round: current.Cmp(new) < 0 (Cmp is antisymmetric)
-			switch b.Op {
-			case token.LSS:
-				return true, true
-			case token.GEQ:
-				return true, false
-			}
+			return onlyWhen(-1) // the same asked the other way round (Cmp is antisymmetric)
 		}
 		return false, false
 	}), ir.CallSinks(rcCalls, "RestructChain"), "RestructChain", nil)
@@ -449,6 +473,7 @@ func checkBtcCommitHeader(c *core.Ctx) {
 }
 
 func runC28(c *core.Ctx) {
+	checkLondonDecidedByHeight(c, "C28.era-by-height")
 	checkEthashSizeStep(c)
 	nGS := checkCmpGuardsSub(c, "C28.guard-use-agreement", pkEthHS)
 	c.Floor("guarded big-integer subtractions in the ETH header rules", nGS, 1)
